@@ -527,6 +527,14 @@ func main() {
 		if res.Site != "" {
 			tags = append(tags, "site:"+res.Site)
 		}
+		// what kind of crash: resource exhaustion (stack overflow / out of memory reported by the
+		// runtime, or the watchdog) or a logic error (recovered or unrecovered panic, any other death)
+		switch {
+		case res.St == "hang", res.St == "fatal" && (res.Site == "stack-overflow" || res.Site == "out-of-memory"):
+			tags = append(tags, "crash:resource")
+		case res.St == "panic" || res.St == "fatal":
+			tags = append(tags, "crash:logic")
+		}
 		comp, total := components[j.C]
 		coq := res.Coq
 		if total || coq == "" {
